@@ -1147,7 +1147,28 @@ class ModelBuilder:
                                 already_exists = True
                                 break
                         if not already_exists:
-                            existing_deps.append(source_task)
+                            # Keep the edge's options: 'a precedes b { gapduration 4h }' must mean the
+                            # same as 'b depends a { gapduration 4h }'
+                            options = prec_item if isinstance(prec_item, dict) else {}
+                            if (
+                                options.get("gapduration")
+                                or options.get("gaplength")
+                                or options.get("maxgapduration")
+                                or options.get("onstart")
+                                or options.get("onend")
+                            ):
+                                existing_deps.append(
+                                    {
+                                        "task": source_task,
+                                        "gapduration": options.get("gapduration"),
+                                        "gaplength": options.get("gaplength"),
+                                        "maxgapduration": options.get("maxgapduration"),
+                                        "onstart": options.get("onstart", False),
+                                        "onend": options.get("onend", False),
+                                    }
+                                )
+                            else:
+                                existing_deps.append(source_task)
                             target_task[("depends", scIdx)] = existing_deps
 
     def _resolve_task_reference(self, project: Project, from_task: Task, ref: str) -> Optional[Task]:
